@@ -111,6 +111,13 @@ func compareTranscripts(p, h *pipew.OpResult) (string, string) {
 func C11(e *simkern.Env) {
 	tp := e.Tape
 	nOps := 1 + tp.Draw(3)
+	// one run in four puts the call-state caches under pressure: one- or
+	// two-entry caches and 3-4 streams alive at once, so that a stream's entry
+	// is evicted (and its slot taken by another stream) between two of its turns
+	pressure := tp.Bool(1, 4)
+	if pressure {
+		nOps = 3 + tp.Draw(2)
+	}
 	ops := pipew.GenOps(tp, pipew.GenCfg{MinOps: nOps, MaxOps: nOps, OnlyStream: true, FailBias: 4, InitFail: true,
 		Cancel: true, Cast: true, Levels: true, MaxTurns: 7, NonceBase: 11000, EmitMeta: true, ZeroRows: true, AfterCancel: true, NoHook: true})
 	for _, op := range ops {
@@ -125,6 +132,13 @@ func C11(e *simkern.Env) {
 	caches := make([]int, nInst)
 	for i := range caches {
 		caches[i] = tp.Pick(-1, 0)
+		if pressure {
+			caches[i] = tp.Pick(1, 2, 1)
+		}
+	}
+	if pressure && nInst > 2 {
+		nInst = 2
+		caches = caches[:nInst]
 	}
 	batchLimit := tp.Draw(4)
 	compress := tp.Bool(1, 2)
@@ -161,6 +175,9 @@ func C11(e *simkern.Env) {
 		// several streams may be alive at once on the same instances: the ops are
 		// dealt to 1-2 client tasks which the scheduler interleaves
 		nTasks := 1 + tp.Draw(2)
+		if pressure {
+			nTasks = 2 + tp.Draw(2)
+		}
 		for c := 0; c < nTasks; c++ {
 			c := c
 			sim.Spawn(fmt.Sprintf("http-client%d", c), func() {
@@ -249,7 +266,7 @@ func init() {
 	Registry["C11"] = &Info{
 		Run:   C11,
 		Level: "exploration",
-		Rule:  "each run draws 1-3 stream programs (producer/exchange/dynamic, header or none, 0-7 turns with logs and user metadata, failing turn, init failure, castable int32 inputs, cancel on exchanges) and drives each once over a simulated pipe and once over HTTP where every request is routed by tape to one of 1-3 instances sharing the token key (cache default or 0), producer batch limit 0-3, compression on/off, with instance restarts injected between requests; transcripts are compared with each other and with the script's own prediction; distinct = schedule fingerprint",
+		Rule:  "each run draws 1-3 stream programs (producer/exchange/dynamic, header or none, 0-7 turns with logs and user metadata, failing turn, init failure, castable int32 inputs, cancel on exchanges) and drives each once over a simulated pipe and once over HTTP where every request is routed by tape to one of 1-3 instances sharing the token key (cache default or 0; one run in four: one- or two-entry caches with 3-4 streams alive at once on 1-2 instances, so entries are evicted and slots re-used between a stream's turns), producer batch limit 0-3, compression on/off, with instance restarts injected between requests; transcripts are compared with each other and with the script's own prediction; distinct = schedule fingerprint",
 		Real:  []string{"vgirpc.Server.serveStream", "vgirpc.HttpServer stream init/exchange/producer continuation, state tokens, call-state cache, response compression"},
 		Stub:  []string{"transports", "load balancer", "protocol clients", "scripted states"},
 		Quick: 700, Thorough: 100000,
